@@ -56,7 +56,11 @@ func (g *Gen) extraStmt(depth int) []*S {
 			}
 		default:
 			if g.o.Structs {
-				out = g.linkTemplate(depth)
+				if g.r.Intn(2) == 0 {
+					out = g.linkTemplate(depth)
+				} else {
+					out = g.fieldLoopTemplate(depth)
+				}
 			}
 		}
 		if out != nil {
@@ -389,6 +393,39 @@ func (g *Gen) linkTemplate(depth int) []*S {
 			Post: &S{K: "assign", Lhs: []*E{v(pv, pt)}, Exprs: []*E{{K: "field", Ty: pt, X: v(pv, pt), F: linkF}}},
 			Body: []*S{{K: "incdec", Lhs: []*E{v(cnt, TInt)}, D: 1}}},
 		{K: "print", Ln: true, Exprs: []*E{{K: "str", Ty: TString, S: "chain"}, v(cnt, TInt)}},
+	}
+}
+
+// a loop whose whole condition is a bare field of a local: for p.On { p.On = false; ... }
+func (g *Gen) fieldLoopTemplate(depth int) []*S {
+	var sd *StructDef
+	var bf string
+	for _, s := range g.prog.Structs {
+		for i, f := range s.Fields {
+			if s.FTypes[i].K == "bool" {
+				sd, bf = s, f
+			}
+		}
+	}
+	if sd == nil {
+		return nil
+	}
+	pt := PtrTo(sd.Name)
+	o := g.fresh("o")
+	lt := g.literal(pt)
+	g.declare(gvar{name: o, ty: pt, ro: true})
+	fe := func() *E { return &E{K: "field", Ty: TBool, X: v(o, pt), F: bf} }
+	g.loop++
+	g.push()
+	body := []*S{{K: "assign", Lhs: []*E{fe()}, Exprs: []*E{{K: "bool", Ty: TBool, B: false}}}}
+	body = append(body, g.stmts(1+g.r.Intn(2), depth-1)...)
+	g.pop()
+	g.loop--
+	return []*S{
+		{K: "decl", Names: []string{o}, Exprs: []*E{lt}},
+		{K: "assign", Lhs: []*E{fe()}, Exprs: []*E{{K: "bool", Ty: TBool, B: true}}},
+		{K: "for", Cond: fe(), Body: body},
+		g.printState(),
 	}
 }
 
